@@ -6,6 +6,8 @@ package utils
 import (
 	"bufio"
 	"io"
+	"os"
+	"path/filepath"
 )
 
 // MaxLineLength is the maximum length of a line that the line scanners accept.
@@ -20,6 +22,36 @@ func NewLineScanner(reader io.Reader) *bufio.Scanner {
 	scanner.Buffer(nil, MaxLineLength)
 	scanner.Split(bufio.ScanLines)
 	return scanner
+}
+
+// GlobInDir is filepath.Glob for patterns below a directory whose own path is taken
+// literally: glob metacharacters in dir (e.g., a CRS root named `crs[12]`) must not make the
+// search match other directories. Each pattern matches one path segment below dir.
+func GlobInDir(dir string, patterns ...string) ([]string, error) {
+	if len(patterns) == 0 {
+		return []string{dir}, nil
+	}
+	entries, err := os.ReadDir(dir)
+	if err != nil {
+		// like filepath.Glob, ignore I/O errors
+		return nil, nil
+	}
+	var matches []string
+	for _, entry := range entries {
+		matched, err := filepath.Match(patterns[0], entry.Name())
+		if err != nil {
+			return nil, err
+		}
+		if !matched {
+			continue
+		}
+		subMatches, err := GlobInDir(filepath.Join(dir, entry.Name()), patterns[1:]...)
+		if err != nil {
+			return nil, err
+		}
+		matches = append(matches, subMatches...)
+	}
+	return matches, nil
 }
 
 func IsEscaped(input string, position int) bool {
